@@ -258,11 +258,14 @@ PROPS = {
         "streams": [
             {"name": "o_rt", "module": "pa", "quick": 3000, "thorough": 40000, "kind": "oracle", "profiles": ["debug", "release"],
              "args": {"kind": "rt"}},
+            {"name": "o_exp", "module": "pa", "quick": 3000, "thorough": 40000, "kind": "oracle", "profiles": ["debug"],
+             "args": {"kind": "expect"}},
             {"name": "wr", "module": "wr", "quick": 1500, "thorough": 20000, "profiles": ["debug"], "oracle_prefix": "o_wr"},
             {"name": "tx_digits", "module": "tx", "quick": 1500, "thorough": 20000, "profiles": ["debug"], "args": {"kind": "digits"}},
             {"name": "pa_fixed", "module": "fixed", "quick": 0, "thorough": 0, "kind": "oracle", "profiles": ["debug"]},
         ],
-        "rule": "documents of all formats parsed, written with the crate's writer, parsed again: the two values must be equal and "
+        "rule": "abstract values rendered in the writer's plain layout and in fancy layouts must parse to exactly that value (o_exp); "
+                "documents of all formats parsed, written with the crate's writer, parsed again: the two values must be equal and "
                 "the second parse must end cleanly; values built through the public constructors (BTOR2 constants of all three "
                 "radixes incl. invalid strings) written and parsed; writer and digit scanner compared with the model",
         "theorems_note": "Props/C03.v: decimal text read back exactly by every admissible scanner run; varint round trip; BTOR2 operator "
